@@ -11,8 +11,10 @@
     draws random ids), so the theorems hold for EVERY id supply; [threaded]
     is the supply of the realm model (a counter).  [hist_ref cfg id t k ops]
     — defined by recursion over [ops] — is the list, in order, of the
-    publications in [ops] that were accepted, matched (t, k) and carried
-    neither an [exclude] nor an [eligible] option key.  Side hypothesis
+    publications in [ops] that were accepted (valid topic, no passthru-mode
+    violation, no refused disclose_me), matched (t, k) and carried neither an
+    [exclude] nor an [eligible] option key; the stored details are
+    [ppt_part opts ++ event_details …] as in the EVENT.  Side hypothesis
     [… <= max_idN]: fewer than 2^53 subscriptions are ever created. *)
 From Nexus Require Import Router.BrokerProofs Router.BrokerExamples.
 
@@ -22,11 +24,13 @@ Theorem C20_hist_ref_def : forall cfg id t k ops,
     flat_map (fun o => match o with
       | BPublish pg lookup now pub req opts topic args kw =>
           if valid_uri (c_strict cfg) "" topic
+             && negb (publish_aborts cfg pub opts topic)
              && negb (opt_bool opts "disclose_me" && negb (c_disclose cfg))
              && matches_b k t topic
              && negb (dhas opts "exclude" || dhas opts "eligible")
           then [mkHEntry id (pg + 1)
-                         (event_details topic (is_pattern k) (opt_bool opts "disclose_me") pub None) args kw now]
+                         (ppt_part opts ++ event_details topic (is_pattern k) (opt_bool opts "disclose_me") pub None)
+                         args kw now]
           else []
       | _ => [] end) ops.
 Proof. reflexivity. Qed.
@@ -85,8 +89,8 @@ Theorem C20_restricted_never_stored : forall cfg id t k ops e,
     exists pg lookup now pub req opts topic args kw,
       In (BPublish pg lookup now pub req opts topic args kw) ops /\
       dhas opts "exclude" = false /\ dhas opts "eligible" = false /\
-      pub_accepted cfg opts topic /\ matches k t topic /\
-      e = mkHEntry id (pg + 1) (event_details topic (is_pattern k) (opt_bool opts "disclose_me") pub None) args kw now.
+      pub_accepted cfg pub opts topic /\ matches k t topic /\
+      e = mkHEntry id (pg + 1) (ppt_part opts ++ event_details topic (is_pattern k) (opt_bool opts "disclose_me") pub None) args kw now.
 Proof. exact restricted_never_stored. Qed.
 Print Assumptions C20_restricted_never_stored.
 
